@@ -383,4 +383,233 @@ theorem exec_j_succ {fuel : Nat} (jh : JHx fuel) : JEx (exec (fuel + 1)) := by
     · exact Ok.pure j
     · exact Ok.pure (j.congr rfl rfl rfl)
 
+/-! ### `Process`, `ScriptVM::Execute`, the timer loop, `ScriptExecuteInternal` -/
+
+theorem process_j_succ {fuel : Nat} (hex : JEx (exec fuel)) (hpr : JPr (process fuel)) : JPr (process (fuel + 1)) := by
+  intro X W s t h hcur hvmhv j
+  have I := iAll fuel
+  rw [process_succ]
+  cases hf : s.th? t with
+  | none => exact Ok.pure j
+  | some th =>
+    rw [State.th?_eq] at hf
+    simp only
+    split
+    · exact Ok.pure j
+    · rename_i hv
+      have hvm : th.vm = .running := by simpa using hv
+      have hhv := hvmhv th hf hvm
+      have hts : th.ts = .running := (h.th t th hf).f3 hvm
+      have i0 : Inv [] W none s :=
+        h.dropTop (fun th1 h1 hw => by rw [hf] at h1; cases h1; rw [hts] at hw; cases hw)
+      have i1 : Inv [] W none (s.setTh t fun th => { th with pc := th.pc + 1 }) :=
+        i0.setTh_plain t _ (fun _ => rfl) (fun _ => rfl) (fun _ => rfl)
+          (fun th0 h0 => by have r := i0.th t th0 h0; exact ⟨r.f1, r.f2, r.f3, r.f5⟩) (fun _ => Or.inl rfl)
+      have j1 : J X (s.setTh t fun th => { th with pc := th.pc + 1 }) := j.setTh t _
+      have hfind1 : thFind (s.setTh t fun th => { th with pc := th.pc + 1 }).threads t =
+          some { th with pc := th.pc + 1 } := by
+        rw [State.setTh_threads, thFind_map_upd]; simp [hf]
+      have P := presAll fuel
+      refine ((I.ex W _ t _ th _ i1 hfind1 hvm hhv (h.n.parent t th hf) (h.n.prog.fetch _ _) hcur).and
+        (hex X W _ t _ th _ i1 hfind1 hvm hhv (h.n.parent t th hf) (h.n.prog.fetch _ _) hcur rfl j1)).bind
+        (P.pr _ _) (fun p => ?_)
+      obtain ⟨p, pj⟩ := p
+      have hcur1 : (exec fuel (s.setTh t fun th => { th with pc := th.pc + 1 }) t th
+          ((s.prog.getD th.label []).getD th.pc (.end_ .none))).cur = some t ∨
+          (exec fuel (s.setTh t fun th => { th with pc := th.pc + 1 }) t th
+          ((s.prog.getD th.label []).getD th.pc (.end_ .none))).cur = none := by
+        rcases p.2.cur with e | e
+        · rw [e]; exact hcur
+        · exact Or.inr e
+      refine hpr X W _ t p.1 hcur1 ?_ pj
+      intro th' hth' hvm'
+      rcases p.2.lost t _ hfind1 hhv with e | ⟨th2, e, e2⟩
+      · rw [e] at hth'; cases hth'
+      · rw [hth'] at e; cases e
+        rcases e2 with e2 | e2
+        · exact e2
+        · have := ((p.1.th t th' hth').f2 e2).2
+          rw [hvm'] at this; cases this
+
+theorem execVM_j_succ {fuel : Nat} (hpr : JPr (process fuel)) : JEv (execVM (fuel + 1)) := by
+  intro X W s t th h hth hhv hts hcur j
+  have I := iAll fuel
+  rw [execVM_succ]
+  have r := h.th t th hth
+  have hd : th.dead = false := by
+    cases hdd : th.dead with
+    | false => rfl
+    | true => have := (r.f2 hdd).1; rw [hhv] at this; cases this
+  have i0' : Inv [] W none { (s.setTh t fun th => { th with vm := .running }) with timer := s.timer } :=
+    h.setTh (C' := []) (W' := W) (top' := none) t (fun th => { th with vm := .running }) th s.timer hth
+      (fun _ => rfl)
+      ⟨fun hv => (by simp only at hv; rw [hhv] at hv; cases hv), fun hdd => (by simp only at hdd; rw [hd] at hdd; cases hdd),
+        fun _ => hts, fun hv => (by cases hv)⟩
+      (fun _ => rfl) (h.tim.setTh_same t _ (fun _ => rfl)) (fun x m _ => m) (fun x m _ => m) (Or.inl rfl)
+      (fun ho => by
+        rcases h.lnk.linkC t ho with m | ⟨th0, h0, hw0⟩
+        · exact Or.inl m
+        · rw [hth] at h0; cases h0; rw [hts] at hw0; cases hw0)
+      (fun hw0 => by simp only at hw0; rw [hts] at hw0; cases hw0)
+      (fun hw0 => by simp only at hw0; rw [hts] at hw0; cases hw0)
+  have i0 : Inv [] W none (vmPrologue s t) := i0'.congr rfl rfl rfl rfl rfl rfl rfl rfl rfl
+  have j0 : J X (vmPrologue s t) :=
+    (j.setTh t (fun th => { th with vm := .running }) (fun _ => rfl) (fun _ => rfl) (fun _ => rfl) (fun _ hx => hx)
+      (fun _ hx => by cases hx)).congr rfl rfl rfl
+  have hthr0 : (vmPrologue s t).threads = s.threads.map (thUpd t fun th => { th with vm := .running }) := rfl
+  have hfind0 : thFind (vmPrologue s t).threads t = some { th with vm := .running } := by
+    rw [hthr0, thFind_map_upd]; simp [hth]
+  refine (hpr X W _ t (i0.toTop t) hcur (fun th' h' _ => by rw [hfind0] at h'; cases h'; exact hhv) j0).bind
+    ((Pres.of_eq rfl rfl rfl : Pres (process fuel (vmPrologue s t) t)
+      { (process fuel (vmPrologue s t) t) with depth := (process fuel (vmPrologue s t) t).depth - 1 }).trans
+      (vmEpilogue_pres _ _)) (fun p => ?_)
+  exact Ok.pure ((p.congr (s' := { (process fuel (vmPrologue s t) t) with
+      depth := (process fuel (vmPrologue s t) t).depth - 1 }) rfl rfl rfl).epi t)
+
+theorem drain_j_succ {fuel : Nat} (hev : JEv (execVM fuel)) (hdr : JEr (drain fuel)) : JEr (drain (fuel + 1)) := by
+  intro X W s h j
+  have I := iAll fuel
+  rw [drain_succ]
+  cases hn : s.timer.next with
+  | mk r tm =>
+    cases r with
+    | none => exact Ok.pure (j.congr rfl rfl rfl)
+    | some ed =>
+      obtain ⟨t, d⟩ := ed
+      dsimp only
+      obtain ⟨i, hi, _, _, htm⟩ := Timer.next_some hn
+      have hmem : (t, d) ∈ s.timer.elems := List.mem_of_getElem? hi
+      obtain ⟨th, hth, hts⟩ := h.tim.t1 (t, d) hmem
+      have ht100 : 100 ≤ t := (h.n.range t th hth).1
+      have rr := h.th t th hth
+      have hhv : th.hasVM = true := by
+        cases hv : th.hasVM with
+        | true => rfl
+        | false => have := rr.f1 hv; rw [hts] at this; cases this
+      have i0 : Inv [] W none ({ s with cur := some t } : State) :=
+        h.setCur (some t) (fun x hx => by simp at hx; omega)
+      have i1 : Inv [] W none { (({ s with cur := some t } : State).setTh t fun th => { th with ts := .running }) with timer := tm } :=
+        i0.setTh (C' := []) (W' := W) (top' := none) t (fun th => { th with ts := .running }) th tm hth
+          (fun _ => rfl) (recOK_running rr) (fun _ => rfl)
+          (h.tim.erase i t d hi _ (fun _ => by simp) tm (by rw [htm]))
+          (fun x m _ => m) (fun x m _ => m) (Or.inl rfl)
+          (fun ho => by
+            rcases h.lnk.linkC t ho with m | ⟨th0, h0, hw0⟩
+            · exact Or.inl m
+            · rw [hth] at h0; cases h0; rw [hts] at hw0; cases hw0)
+          (fun hw0 => by cases hw0) (fun hw0 => by cases hw0)
+      have i1' : Inv [] W none (({ s with timer := tm, cur := some t } : State).setTh t fun th => { th with ts := .running }) :=
+        i1.congr rfl rfl rfl rfl rfl rfl rfl rfl rfl
+      have j1' : J X (({ s with timer := tm, cur := some t } : State).setTh t fun th => { th with ts := .running }) :=
+        (j.congr (s' := ({ s with timer := tm, cur := some t } : State)) rfl rfl rfl).setTh t _
+      have hfind1 : thFind (({ s with timer := tm, cur := some t } : State).setTh t fun th => { th with ts := .running }).threads t =
+          some { th with ts := .running } := by
+        rw [State.setTh_threads, thFind_map_upd]; simp [hth]
+      have P := presAll fuel
+      refine ((I.ev W _ t _ i1' hfind1 hhv rfl (Or.inl rfl)).and
+        (hev X W _ t _ i1' hfind1 hhv rfl (Or.inl rfl) j1')).bind (P.dr _) (fun p => ?_)
+      exact hdr X W _ p.1.1 p.2
+
+theorem executeRunning_j_succ {fuel : Nat} (hdr : JEr (drain fuel)) : JEr (executeRunning (fuel + 1)) := by
+  intro X W s h j
+  rw [executeRunning_succ]
+  split
+  · exact Ok.pure j
+  · split
+    · exact Ok.pure j
+    · exact hdr X W s h j
+
+theorem scriptExecuteInternal_j_succ {fuel : Nat} (hev : JEv (execVM fuel)) (her : JEr (executeRunning fuel)) :
+    JSei (scriptExecuteInternal (fuel + 1)) := by
+  intro X W s t th h hth hhv j
+  have I := iAll fuel
+  rw [scriptExecuteInternal_succ]
+  have ht100 : 100 ≤ t := (h.n.range t th hth).1
+  have P := presAll fuel
+  have i0 : Inv [] (t :: W) none ({ s with cur := some t } : State) :=
+    h.setCur (some t) (fun x hx => by simp at hx; omega)
+  have j0 : J X ({ s with cur := some t } : State) := j.congr rfl rfl rfl
+  have q1 := (qAll fuel).stp [] ({ s with cur := some t } : State) t i0.n
+  have j1 : J X (stop fuel { s with cur := some t } t) := (jqAll fuel).stp X _ t i0.n j0
+  refine (I.stp [] W _ t i0).bind ?_ (fun p1 => ?_)
+  · exact ((execIfAlive_pres P.ev _ _).trans (restoreCur_pres _ _)).trans (P.er _)
+  obtain ⟨i1, hrun⟩ := p1
+  have hexec : Ok (execIfAlive (execVM fuel) (stop fuel { s with cur := some t } t) t)
+      ((Inv [] W none (execIfAlive (execVM fuel) (stop fuel { s with cur := some t } t) t) ∧
+        G0 (stop fuel { s with cur := some t } t) (execIfAlive (execVM fuel) (stop fuel { s with cur := some t } t) t)) ∧
+        J X (execIfAlive (execVM fuel) (stop fuel { s with cur := some t } t) t)) := by
+    unfold execIfAlive
+    split
+    · rename_i hal
+      rw [State.alive_thread _ (by simpa [State.isThread] using ht100)] at hal
+      obtain ⟨th1, hth1, hd1⟩ := (aliveTh_iff i1.n.nodup t).1 hal
+      have hvm1 : th1.hasVM = true := by
+        rcases q1.lost t th hth hhv with e | ⟨th', e, e2⟩
+        · rw [e] at hth1; cases hth1
+        · rw [hth1] at e; cases e
+          rcases e2 with e2 | e2 | e2
+          · exact e2
+          · rw [hd1] at e2; cases e2
+          · cases e2
+      have hcur1 : (stop fuel { s with cur := some t } t).cur = some t := by rw [q1.cur]
+      exact ((I.ev W _ t th1 i1 hth1 hvm1 (hrun th1 hth1) (Or.inl hcur1)).map (fun p => ⟨p.1, p.2.g0⟩)).and
+        (hev X W _ t th1 i1 hth1 hvm1 (hrun th1 hth1) (Or.inl hcur1) j1)
+    · exact Ok.pure ⟨⟨i1, G0.of_eq rfl rfl rfl⟩, j1⟩
+  refine hexec.bind ((restoreCur_pres _ _).trans (P.er _)) (fun p2 => ?_)
+  obtain ⟨⟨i2, g2⟩, j2⟩ := p2
+  have i3 : Inv [] W none (restoreCur (execIfAlive (execVM fuel) (stop fuel { s with cur := some t } t) t) s.cur) := by
+    unfold restoreCur
+    apply i2.setCur
+    intro x hx
+    cases hc : s.cur with
+    | none => rw [hc] at hx; simp at hx
+    | some c0 =>
+      rw [hc] at hx
+      simp only [Option.bind_some] at hx
+      split at hx
+      · simp at hx; subst hx; exact h.n.cur _ hc
+      · simp at hx
+  have j3 : J X (restoreCur (execIfAlive (execVM fuel) (stop fuel { s with cur := some t } t) t) s.cur) := by
+    unfold restoreCur
+    exact j2.congr rfl rfl rfl
+  exact her X W _ i3 j3
+
+/-! ### the induction -/
+
+structure JAll (fuel : Nat) : Prop where
+  swf : JSwf (stoppedWaitFor fuel)
+  ur : JUr (unregister fuel)
+  sei : JSei (scriptExecuteInternal fuel)
+  er : JEr (executeRunning fuel)
+  dr : JEr (drain fuel)
+  ev : JEv (execVM fuel)
+  pr : JPr (process fuel)
+  ex : JEx (exec fuel)
+
+theorem jAll_zero : JAll 0 where
+  swf := fun X C W s t n d _ _ _ => by rw [stoppedWaitFor_zero]; exact Or.inl rfl
+  ur := fun X C W s t n _ _ _ => by rw [unregister_zero]; exact Or.inl rfl
+  sei := fun X W s t th _ _ _ _ => by rw [scriptExecuteInternal_zero]; exact Or.inl rfl
+  er := fun X W s _ _ => by rw [executeRunning_zero]; exact Or.inl rfl
+  dr := fun X W s _ _ => by rw [drain_zero]; exact Or.inl rfl
+  ev := fun X W s t th _ _ _ _ _ _ => by rw [execVM_zero]; exact Or.inl rfl
+  pr := fun X W s t _ _ _ _ => by rw [process_zero]; exact Or.inl rfl
+  ex := fun X W s t th0 th ins _ _ _ _ _ _ _ _ _ => by rw [exec_zero]; exact Or.inl rfl
+
+theorem jAll_succ {fuel : Nat} (ih : JAll fuel) : JAll (fuel + 1) where
+  swf := stoppedWaitFor_j_succ ih.sei
+  ur := unregister_j_succ ih.swf
+  sei := scriptExecuteInternal_j_succ ih.ev ih.er
+  er := executeRunning_j_succ ih.dr
+  dr := drain_j_succ ih.ev ih.dr
+  ev := execVM_j_succ ih.pr
+  pr := process_j_succ ih.ex ih.pr
+  ex := exec_j_succ ⟨ih.ur, ih.sei⟩
+
+/-- **The instance-list invariant is kept by every function of the executing half, for every fuel**
+    (the destruction cascades: `jqAll`). -/
+theorem jAll : ∀ fuel, JAll fuel
+  | 0 => jAll_zero
+  | fuel + 1 => jAll_succ (jAll fuel)
+
 end Morfuse.Sched
